@@ -132,7 +132,9 @@ add("index", [SELF, ("id", TStr()), ("*args", TTuple([]))], [
 add("__contains__", [SELF, ("entity", TStr())], [
     typed(Case("str", ensures=lambda E: E.res.t == z3.Select(Dv(E.s0, E["self"])[0], key_of(E, E["entity"]))), entity=VStr),
     typed(Case("obj", ensures=lambda E: E.res.t == z3.Select(Dv(E.s0, E["self"])[0], key_of(E, E["entity"]))), entity=VRef),
-], result="bool")
+],
+    # at call sites the result is the term itself (usable inside comprehension conditions)
+    result=lambda eng, st, E: (st, VBool(z3.Select(Dv(st, E["self"])[0], key_of(E, E["entity"])))))
 
 
 def _gi_in(E):
